@@ -174,8 +174,9 @@ def e2e_spec(draw):
     conns = []
     n = draw(st.integers(1, 3))
     for i in range(n):
-        k = draw(st.sampled_from(["tls", "tls", "quic", "noise"]))
-        ep = strategies.endpoints(idx=i)
+        k = draw(st.sampled_from(["tls", "tls", "quic", "quic", "noise"]))
+        # QUIC is recognised on any port: listed and unlisted server ports
+        ep = strategies.endpoints(idx=i, sports=(443, 44330, 4433, 8443, 50000) if k == "quic" else (443,))
         if k == "tls":
             c = draw(strategies.tls_conn(max_records=5, max_len=300, ep=ep, delivery=strategies.tcp_delivery(modes=("rec", "cuts"), wrap=False)))
         elif k == "quic":
